@@ -44,8 +44,15 @@ def c09(tier):
         cases = rnd.sample(cases, p["sample"])
     # nodes with more children than the listing page (100): every stored child must appear exactly once
     wide = [{"tuples": [], "d": d, "wn": wn, "nch": wn + 1, "nleaves": wn + (1 if d == 2 else 101)} for wn in (99, 100, 101, 201) for d in (2, 3)]
-    allc = cases + wide
-    inp = {"cases": [{"id": i, "tuples": c["tuples"], "d": c["d"], "wn": c["wn"], "faults": (i % 5 == 0 and c["d"] >= 2 and c["wn"] in (0, 101))}
+    # relationships that point into a namespace which is then removed from the configuration (they stay stored): the reply is an
+    # error, or a tree in which every expanded node still has one child per stored relationship - never a tree without the edge
+    def G(o, s):
+        return ["n", o, "r", s]
+    gone_tuples = [G("s", ["set", "gone", "g", "r"]), G("s", ["id", "u1"]), G("s", ["set", "n", "a", "r"]),
+                   G("a", ["set", "gone", "h", "r"]), G("a", ["id", "u2"]), ["gone", "g", "r", ["id", "u3"]], ["gone", "h", "r", ["id", "u4"]]]
+    gone = [{"tuples": gone_tuples, "d": d, "wn": 0, "gone": True} for d in (2, 3, 4)]
+    allc = cases + wide + gone
+    inp = {"cases": [{"id": i, "tuples": c["tuples"], "d": c["d"], "wn": c["wn"], "faults": (i % 5 == 0 and c["d"] >= 2 and c["wn"] in (0, 101) and not c.get("gone")), "gone": bool(c.get("gone"))}
                      for i, c in enumerate(allc)], "gdepth": 12}
     nfaults = 0
     recs = {x["id"]: x for x in run_harness(binary, "expand", inp)}
@@ -63,6 +70,23 @@ def c09(tier):
             if f["status"] == 200 and not f["same"]:
                 ck.violation("an expand during which a storage statement failed (%s error on statement %d of %d) answered 200 with another tree than without the failure"
                              % (f["flavour"], f["k"], ob["nstmts"]), dict(cid, fault=f))
+        if c.get("gone"):
+            answered = 0
+            for name in ("engine", "rest", "grpc"):
+                tr = ob.get(name)
+                if tr is None or tr["t"] == "nil":
+                    continue      # an error reply (or nothing): nothing wrong is shown
+                answered += 1
+                for nd in nodes(tr):
+                    if not nd.get("ch"):
+                        continue
+                    want = sorted(json.dumps(t[3]) for t in stored if t[1] == nd["s"][2] and t[0] == nd["s"][1])
+                    got = sorted(json.dumps(ch["s"]) for ch in nd["ch"])
+                    if got != want:
+                        ck.violation("after a namespace was removed from the configuration, expand (%s) answers with a tree in which a stored relationship of an expanded node is missing" % name,
+                                     dict(cid, node=nd["s"], children=got, stored_subjects=want, tree=tr))
+            ck.nontrivial.add(("gone", c["d"], answered))
+            continue
         if "engine_err" in ob:
             ck.violation("expand failed: " + ob["engine_err"], cid)
             continue
